@@ -13,7 +13,7 @@
 //!        addrs: "obs" = exactly the observed address, "obsip" = observed IP, another port, "oth" = another IP
 //!   {"a":"data","i","mode"}               the client of the i-th request that was asked for data sends:
 //!        "all" (what is missing, 4096 per frame) | "chunk" (one 4096 frame) | "allbut1" | "over" (all + 4096 more)
-//!        | "dial" (a DialRequest instead) | "junk" | "eof"
+//!        | "tiny" (30 frames of one byte) | "dial" (a DialRequest instead) | "junk" | "eof"
 //!   {"a":"dialres","i","r"}               the i-th pending dial-back dial: "ok" | "fail"
 //!   {"a":"back_open","i","r"}             the dial-back stream of the i-th dial-back connection that asked for
 //!        one: "ok" | "unsup" | "timeout" | "io"
@@ -506,7 +506,12 @@ impl World {
                     "over" => missing + 4096,
                     _ => 0,
                 };
-                let bytes = total;
+                if mode == "tiny" {
+                    // many nearly empty frames: only their content counts
+                    total = 0;
+                    frames = vec![1; 30];
+                }
+                let bytes = if mode == "tiny" { 30 } else { total };
                 while total > 0 {
                     let n = total.min(4096);
                     frames.push(n);
@@ -681,8 +686,10 @@ fn random_mode(rng: &mut impl Rng) -> &'static str {
         "chunk"
     } else if y < 80 {
         "allbut1"
-    } else if y < 88 {
+    } else if y < 86 {
         "over"
+    } else if y < 91 {
+        "tiny"
     } else {
         ["dial", "junk", "eof"][rng.gen_range(0..3)]
     }
@@ -767,6 +774,7 @@ pub fn main(a: &vcommon::Args) {
                 json!({"a": "data", "i": 0, "mode": "all"}),
                 json!({"a": "data", "i": 0, "mode": "allbut1"}),
                 json!({"a": "data", "i": 0, "mode": "chunk"}),
+                json!({"a": "data", "i": 0, "mode": "tiny"}),
                 json!({"a": "dialres", "i": 0, "r": "ok"}),
                 json!({"a": "dialres", "i": 0, "r": "fail"}),
                 json!({"a": "back_open", "i": 0, "r": "ok"}),
